@@ -1,23 +1,108 @@
 package vauth
 
 import (
+	"encoding/hex"
 	"fmt"
+	"math/big"
+	"os"
+	"strings"
 	"testing"
 	"time"
+
+	sdk "github.com/cosmos/cosmos-sdk/types"
+	vestingtypes "github.com/cosmos/cosmos-sdk/x/auth/vesting/types"
+	"github.com/cosmos/cosmos-sdk/x/authz"
+	"github.com/stretchr/testify/require"
+
+	vauthtypes "github.com/EscanBE/evermint/v12/x/vauth/types"
 
 	. "verifharness/hx"
 )
 
+// TestProbe prints facts about the real chain the driver relies on (run by hand: VERIF_PROBE=1).
 func TestProbe(t *testing.T) {
-	c := NewChain(t, time.Time{})
-	for i := 0; i < 3; i++ {
-		s0 := c.Supply(c.QueryCtx(), c.Denom())
-		res := c.RunBlock(nil)
-		s1 := c.Supply(c.QueryCtx(), c.Denom())
-		fmt.Println("supply", s0, s1, len(res.Events))
-		for _, e := range res.Events {
-			fmt.Println("  ", e.Type, EventAttrs(e))
-		}
+	if os.Getenv("VERIF_PROBE") == "" {
+		t.Skip("manual probe")
 	}
-	fmt.Println(c.StoreDigests(c.QueryCtx()))
+	c := NewChain(t, time.Time{})
+	e18 := new(big.Int).Exp(big.NewInt(10), big.NewInt(18), nil)
+	sub := DetAccount(1, "p-sub", 0)
+	poor := DetAccount(1, "p-sub", 1)
+	acc := DetAccount(1, "p-acc", 0)
+	acc2 := DetAccount(1, "p-acc", 1)
+	c.Fund(sub.GetCosmosAddress(), c.Denom(), new(big.Int).Mul(e18, big.NewInt(100)))
+	c.Fund(poor.GetCosmosAddress(), c.Denom(), new(big.Int).Div(e18, big.NewInt(2)))
+	c.RunBlock(nil)
+	price := new(big.Int).Mul(c.BaseFee(c.QueryCtx()), big.NewInt(2))
+	fmt.Println("price", price)
+	mk := func(signer interface {
+		GetCosmosAddress() sdk.AccAddress
+	}, msgs ...sdk.Msg) []byte {
+		return nil
+	}
+	_ = mk
+	tx := func(s int, msgs ...sdk.Msg) []byte {
+		a := []*struct{}{nil}
+		_ = a
+		acct := sub
+		if s == 1 {
+			acct = poor
+		}
+		accNum, seq := c.AccNumSeq(acct.GetCosmosAddress())
+		raw := &RawTx{Msgs: msgs, Gas: 400000, Fee: c.FeeCoins(new(big.Int).Mul(price, big.NewInt(400000)))}
+		require.NoError(t, raw.SignDirect(c.ChainID(), acct, accNum, seq))
+		bz, err := raw.Encode()
+		require.NoError(t, err)
+		return bz
+	}
+	run := func(name string, bz []byte) {
+		s0 := c.Supply(c.QueryCtx(), c.Denom())
+		b0 := c.Bal(c.QueryCtx(), sub.GetCosmosAddress(), c.Denom())
+		chk, _ := c.CheckTx(bz, false)
+		res := c.RunBlock([][]byte{bz})
+		s1 := c.Supply(c.QueryCtx(), c.Denom())
+		b1 := c.Bal(c.QueryCtx(), sub.GetCosmosAddress(), c.Denom())
+		r := res.TxResults[0]
+		var minted string
+		for _, e := range res.Events {
+			if e.Type == "mint" {
+				minted = EventAttrs(e)["amount"]
+			}
+		}
+		evs := []string{}
+		for _, e := range r.Events {
+			evs = append(evs, e.Type)
+		}
+		log := r.Log
+		if len(log) > 100 {
+			log = log[:100]
+		}
+		fmt.Printf("%-28s check=%s/%d deliver=%s/%d gas=%d supplyDelta=%s minted=%s subDelta=%s evs=%v log=%s\n", name, chk.Codespace, chk.Code, r.Codespace, r.Code, r.GasUsed,
+			new(big.Int).Sub(s1, s0), minted, new(big.Int).Sub(b1, b0), strings.Join(evs, ","), log)
+	}
+	sig := "0x" + hex.EncodeToString(VauthSignature(acc))
+	subS := sub.GetCosmosAddress().String()
+	run("wrong-key", tx(0, &vauthtypes.MsgSubmitProofExternalOwnedAccount{Submitter: subS, Account: acc2.GetCosmosAddress().String(), Signature: sig}))
+	run("upper", tx(0, &vauthtypes.MsgSubmitProofExternalOwnedAccount{Submitter: subS, Account: acc.GetCosmosAddress().String(), Signature: "0x" + strings.ToUpper(sig[2:])}))
+	run("poor", tx(1, &vauthtypes.MsgSubmitProofExternalOwnedAccount{Submitter: poor.GetCosmosAddress().String(), Account: acc.GetCosmosAddress().String(), Signature: sig}))
+	ex := authz.NewMsgExec(sub.GetCosmosAddress(), []sdk.Msg{&vauthtypes.MsgSubmitProofExternalOwnedAccount{Submitter: subS, Account: acc2.GetCosmosAddress().String(), Signature: sig}})
+	run("exec-wrong-key", tx(0, &ex))
+	ex3 := authz.NewMsgExec(sub.GetCosmosAddress(), []sdk.Msg{&vauthtypes.MsgSubmitProofExternalOwnedAccount{Submitter: subS, Account: acc.GetCosmosAddress().String(), Signature: sig}})
+	ex3b := authz.NewMsgExec(sub.GetCosmosAddress(), []sdk.Msg{&ex3})
+	ex3c := authz.NewMsgExec(sub.GetCosmosAddress(), []sdk.Msg{&ex3b})
+	run("exec3-valid", tx(0, &ex3c))
+	run("exec2-valid", tx(0, &ex3b))
+	run("again", tx(0, &vauthtypes.MsgSubmitProofExternalOwnedAccount{Submitter: subS, Account: acc.GetCosmosAddress().String(), Signature: sig}))
+	// 32-byte address whose last 20 bytes are acc2's address
+	long := append(make([]byte, 12), acc2.GetCosmosAddress().Bytes()...)
+	long[0] = 0xAB
+	sig2 := "0x" + hex.EncodeToString(VauthSignature(acc2))
+	run("32-byte", tx(0, &vauthtypes.MsgSubmitProofExternalOwnedAccount{Submitter: subS, Account: sdk.AccAddress(long).String(), Signature: sig2}))
+	fmt.Println("has32", c.App.VAuthKeeper.HasProofExternalOwnedAccount(c.QueryCtx(), sdk.AccAddress(long)), "has20", c.App.VAuthKeeper.HasProofExternalOwnedAccount(c.QueryCtx(), acc2.GetCosmosAddress()))
+	amt := sdk.NewCoins(sdk.NewInt64Coin(c.Denom(), 5))
+	run("vest-32", tx(0, &vestingtypes.MsgCreateVestingAccount{FromAddress: subS, ToAddress: sdk.AccAddress(long).String(), Amount: amt, EndTime: 4102444800}))
+	run("vest-unproven", tx(0, &vestingtypes.MsgCreateVestingAccount{FromAddress: subS, ToAddress: acc2.GetCosmosAddress().String(), Amount: amt, EndTime: 4102444800}))
+	run("vest-proven", tx(0, &vestingtypes.MsgCreateVestingAccount{FromAddress: subS, ToAddress: acc.GetCosmosAddress().String(), Amount: amt, EndTime: 4102444800}))
+	run("vest-proven-again", tx(0, &vestingtypes.MsgCreatePermanentLockedAccount{FromAddress: subS, ToAddress: acc.GetCosmosAddress().String(), Amount: amt}))
+	fmt.Println("vauth module bal", c.Bal(c.QueryCtx(), c.App.AccountKeeper.GetModuleAddress("vauth"), c.Denom()))
 }
